@@ -48,15 +48,17 @@ Fixpoint remove_holder (h : N) (p : pool) : pool :=
   | (h', d') :: p' => if N.eqb h h' then p' else (h', d') :: remove_holder h p'
   end.
 
-Inductive verdict := Accept (p : pool) | DoubleRecycle | LiveBufferHandedOut.
+Inductive verdict := Accept (p : pool) | DoubleRecycle | LiveBufferHandedOut | HeaderModifiedInPool.
 
 Definition pool_step (p : pool) (e : pev) : verdict :=
   match e with
   | PR h d => if has_data d p then DoubleRecycle else Accept ((h, d) :: p)
   | PG h d =>
-      if N.eqb d 0 then Accept (remove_holder h p)            (* nil header: GetSlice allocates afresh *)
-      else if has_entry h d p then Accept (remove_entry h d p) (* the recycled buffer itself *)
-      else if has_holder h p then LiveBufferHandedOut          (* header was re-assigned after recycling *)
+      (* a header that sits in the pool belongs to the pool: when it comes out it must still hold the
+         buffer it was recycled with; nil (the former owner cleared it) or another buffer (the former
+         owner re-assigned it) mean that the pool shares the header with a live record *)
+      if has_entry h d p then Accept (remove_entry h d p)
+      else if has_holder h p then (if N.eqb d 0 then HeaderModifiedInPool else LiveBufferHandedOut)
       else Accept p                                            (* fresh header made by sync.Pool.New *)
   end.
 
